@@ -266,8 +266,17 @@ def assumed_run(tier='quick', prop=None):
     from . import analyses as A
     t0 = time.time()
     fns, table, comb = collect()
-    r = A.assumed_check(fns, prop)
+    lx = A.lexers_check(fns, table)
+    r = A.assumed_check(fns, prop, decided=lx['decided'])
     return _pack('gvc.assumed', [r], t0, samples=[dict(obligation='pp productions whose accepted language is an assumed contract are the pinned text', productions=r['names'])])
+
+
+def lexers_run(tier='quick'):
+    from . import analyses as A
+    t0 = time.time()
+    fns, table, comb = collect()
+    r = A.lexers_check(fns, table)
+    return _pack('gvc.lexers', [r], t0, samples=[dict(obligation='comment / string / escaped-identifier lexers accept exactly the terminated fragment (position-wise, all 256 x 257 classes)', decided=sorted(r['decided']))])
 
 
 def pptotal_run(tier='quick'):
